@@ -27,6 +27,7 @@ def make_actions(rng, kind, pool):
     n = rng.choice([1, 2, 3, 3, 4, 5])
     ids = rng.sample(range(pool), min(n, pool))
     if kind == "hash": return [10 + i for i in ids]
+    if kind == "small": return list(ids)      # includes the arms 0 and 1
     if kind == "str": return ["a%d" % i for i in ids]
     if kind == "dense": return [(i, i + 1) for i in ids]
     if kind == "rowdense":      # the dense row types coba's own pipes hand out (they implement Dense without being lists or tuples)
@@ -35,6 +36,7 @@ def make_actions(rng, kind, pool):
     if kind == "rowsparse":
         from coba.pipes.rows import LazySparse
         return [LazySparse({"k": i, "z": 1}) for i in ids]
+    if kind == "sparsemix": return [{i: 1.0, "bias": 1} for i in ids]      # keys of different types in one mapping
     return [{"k": i, "z": 1} for i in ids]
 
 def valid(pmf, n, tol=1e-9):
@@ -45,12 +47,14 @@ def seed_pick(rng):
 
 def drive(ctx, name, make, rng, reqs):
     from coba.learners import BanditEpsilonLearner, BanditUCBLearner, CorralLearner
-    kind = rng.choice(["hash", "hash", "str", "dense", "sparse", "rowdense", "rowsparse"])
+    kind = rng.choice(["hash", "hash", "small", "str", "dense", "sparse", "sparsemix", "rowdense", "rowsparse"])
+    inplace = rng.random() < 0.2      # the caller keeps ONE list object and edits it in place between rounds
+    shared = []
     single_start = rng.random() < 0.15      # the history opens with one and the same single action offered again and again
     T = rng.randrange(5, 61)
     lrn, desc = make()
     fixed_n = desc.get("fixed_n")
-    case = dict(learner=name, desc=desc, action_kind=kind, rounds=T)
+    case = dict(learner=name, desc=desc, action_kind=kind, rounds=T, one_list_edited_in_place=inplace)
     ctx.count("history:" + name, repr((case, rng.random())), T >= 5)
     hist = []
     for t in range(T):
@@ -58,6 +62,7 @@ def drive(ctx, name, make, rng, reqs):
         if single_start and t < 3 and not fixed_n: acts = make_actions(random.Random(desc.get("seed", 1) if isinstance(desc.get("seed", 1), int) else 1), kind, 6)[:1]
         if fixed_n: acts = (acts + make_actions(rng, kind, 6) * 3)[:fixed_n]; acts = [a for i, a in enumerate(acts) if a not in acts[:i]]
         if fixed_n and len(acts) != fixed_n: continue
+        if inplace: shared[:] = acts; acts = shared
         ctxv = rng.choice([None, 1, (1, 2)])
         try:
             pred = lrn.predict(ctxv, acts)
